@@ -370,9 +370,14 @@ fn session_main(args: &Args) {
                     12..=19 => {
                         let k = 2 + rng.below(6) as usize;
                         let mut v: Vec<Item> = (0..k).map(|_| add_i(rng.below(8) as i64, 0, 1)).collect();
+                        // the pool also holds spellings that differ from a shared name only in letter case (they are other labels)
+                        let mut pool: Vec<String> = names.clone();
+                        pool.push(names[0].to_uppercase());
+                        pool.push(names[0].to_lowercase());
+                        pool.push(names[1].to_uppercase());
                         for _ in 0..1 + rng.below(3) {
                             let at = rng.below(k as u64) as usize;
-                            let name = rng.pick(&names).clone();
+                            let name = rng.pick(&pool).clone();
                             let labs = v[at].labs.clone();
                             let mut it = match rng.below(4) {
                                 0 => pc_lab("ld", rng.below(8) as i64, &name),
@@ -383,10 +388,10 @@ fn session_main(args: &Args) {
                             it.labs = labs;
                             v[at] = it;
                         }
-                        for name in names.iter() {
-                            if rng.chance(2, 3) {
+                        for name in pool.iter() {
+                            if rng.chance(1, 2) {
                                 let at = rng.below(k as u64) as usize;
-                                if v[at].labs.is_empty() {
+                                if v[at].labs.is_empty() && !v.iter().any(|it| it.labs.contains(name)) {
                                     v[at].labs.push(name.clone());
                                 }
                             }
